@@ -41,9 +41,45 @@ def clause_dedup(prog, rep, pw):
         for b in some_blocks:
             reach |= pw.reachable_from(b)
         bad = [c.name for c in pw.live_calls() if c.bb in reach and (wr.call(c) or c.name == "preview_welcome")]
+        if bad or not some_blocks:
+            # the lookup's outcome may travel through wrappers before it is tested (`Ok(Some(..))` of a folded helper, then `?`, then
+            # `if let Some`): decide by evaluating process_welcome with the lookup answering "recorded"
+            reached = _recorded_reaches(prog, pw, d, lambda c: wr.call(c) or c.name == "preview_welcome")
+            if reached is not None and not reached:
+                some_blocks, bad = some_blocks or {-1}, []
         rep.check(bool(some_blocks) and not bad, "welcome-dedup", "MDK::process_welcome/recorded-is-final",
                   "a wrapper id that was already recorded returns the stored welcome (or the stored failure) without writing or re-parsing",
                   "a re-delivered invitation can write again / be parsed again: %s" % bad, pw.loc())
+
+
+def _recorded_reaches(prog, pw, lookup_call, is_sink):
+    """symbolic evaluation of process_welcome with the dedup lookup returning Ok(Some(record)): the names of the sink calls some path
+    executes ([] = none), or None when the evaluation is undecided"""
+    by_callee = {}
+    for g in prog.family(pw):
+        for c in g.calls():
+            by_callee[id(c.callee)] = c
+
+    def hook(cal, args):
+        cobj = by_callee.get(id(cal))
+        if cobj is lookup_call:
+            return ("variant", "Result", "Ok", (("variant", "Option", "Some", (("opaque", "record"),)),))
+        if cal.get("name") == "map_err" and args and args[0][0] == "variant" and args[0][1] == "Result":
+            return args[0] if args[0][2] == "Ok" else ("variant", "Result", "Err", (("opaque", "mapped"),))
+        return None
+    ev = dtable.Evaluator(pw, lambda v: None, lambda a, b: None, lambda bb, v, t: None, max_steps=6000, call_hook=hook, prog=prog)
+
+    def log_pred(cal):
+        cobj = by_callee.get(id(cal))
+        return cobj.name if cobj is not None and cobj is not lookup_call and is_sink(cobj) else None
+    ev.log_pred = log_pred
+    try:
+        ev.run_all({}, fork=True, max_paths=4000)
+    except dtable.Undecided:
+        return None
+    if not ev.path_logs:
+        return None
+    return sorted(set(x for _, lg in ev.path_logs for x in lg))
 
 
 def clause_preview_gate(prog, rep, pw):
